@@ -19,7 +19,14 @@ def run : Runner
     let model := s!"EXT {ext} RES {mmsgTok msg} {natsTok ixs} {extractTok msg}"
     -- C11 on the implementation's observation: extraction returns the merkle root and exactly the chosen hashes/positions
     let distinct := leaves.eraseDups.length == leaves.length
-    let prop := if !distinct || leaves.length != n then "-" else
+    -- duplicate transactions: two EQUAL sibling hashes make the extractor reject the proof the builder produced
+    -- (the CVE-2012-2459 guard) - the round trip the property promises "for every block" fails there (known finding)
+    let rejectedOwn := match res.splitOn " " with
+      | [_, _, ex] => ex.startsWith "nil/"
+      | _ => false
+    let prop := if !distinct && rejectedOwn && leaves.length == n && n > 0 then
+        "violated:built proof rejected by extraction (equal sibling hashes, CVE-2012-2459 guard)"
+      else if !distinct || leaves.length != n then "-" else
       match res.splitOn " " with
       | [_, idx, ex] =>
         let want := (List.range n).filter fun i => mb.getD i false
